@@ -454,7 +454,7 @@ Proof.
       rewrite Hs. do 2 eexists. split; [reflexivity|]. split; [assumption|]. split; assumption.
     + destruct (IHss _ _ _ _ _ _ _ _ _ T2 (incl_app_l _ _ _ Hu23) (inv_push _ _ Hip) Hen Hg2 Es) as [r' [e2' [Hs [Rr _]]]].
       rewrite Hs. do 2 eexists. split; [reflexivity|]. split; [assumption|]. split; assumption.
-  - (* SReturn *) simpl in Hg. simpl in Htr. destruct (tr_exprs c r0) as [r1 u1] eqn:T1. inv Htr. simpl in Hev.
+  - (* SReturn *) simpl in Hg. simpl in Htr. destruct (tr_exprs c r0) as [r1 u1] eqn:T1. injection Htr as Es Ec Eu. subst s' c1 u. simpl in Hev.
     destruct r0 as [|e0 rest].
     + simpl in T1. inv T1. inv Hev. simpl. do 2 eexists. split; [reflexivity|]. split; [constructor; constructor|]. split; assumption.
     + destruct rest; [|discriminate]. simpl in Hg. rewrite andb_true_r in Hg.
@@ -501,3 +501,325 @@ Qed.
 
 End SimS.
 Transparent c25_xgo_builtins c25_print_funcs c25_fmt_path.
+
+(* ================================================================ the two passes of formatFile, structurally *)
+
+Lemma funcs_of_pass1 : forall ds c, funcs_of (fst (fst (pass1 c ds))) = funcs_of ds.
+Proof.
+  induction ds as [|d t IH]; intros c; [reflexivity|].
+  destruct d as [nm path | x e | ty | f0 ps0 res0 body | ty r0 m0 ps0 res0 body]; simpl.
+  - specialize (IH (Fctx (imps c ++ [(nm, path)]) (scopes c))). destruct (pass1 _ t) as [[t' c2] u]. simpl in *. exact IH.
+  - destruct (tr_expr c e) as [e' u1]. specialize (IH (insert x c)). destruct (pass1 _ t) as [[t' c2] u]. simpl in *. exact IH.
+  - specialize (IH c). destruct (pass1 c t) as [[t' c2] u]. simpl in *. exact IH.
+  - specialize (IH c). destruct (pass1 c t) as [[t' c2] u]. simpl in *. rewrite IH. reflexivity.
+  - specialize (IH c). destruct (pass1 c t) as [[t' c2] u]. simpl in *. exact IH.
+Qed.
+
+Lemma methods_of_pass1 : forall ds c, methods_of (fst (fst (pass1 c ds))) = methods_of ds.
+Proof.
+  induction ds as [|d t IH]; intros c; [reflexivity|].
+  destruct d as [nm path | x e | ty | f0 ps0 res0 body | ty r0 m0 ps0 res0 body]; simpl.
+  - specialize (IH (Fctx (imps c ++ [(nm, path)]) (scopes c))). destruct (pass1 _ t) as [[t' c2] u]. simpl in *. exact IH.
+  - destruct (tr_expr c e) as [e' u1]. specialize (IH (insert x c)). destruct (pass1 _ t) as [[t' c2] u]. simpl in *. exact IH.
+  - specialize (IH c). destruct (pass1 c t) as [[t' c2] u]. simpl in *. exact IH.
+  - specialize (IH c). destruct (pass1 c t) as [[t' c2] u]. simpl in *. exact IH.
+  - specialize (IH c). destruct (pass1 c t) as [[t' c2] u]. simpl in *. rewrite IH. reflexivity.
+Qed.
+
+Lemma imports_of_pass1 : forall ds c, imports_of (fst (fst (pass1 c ds))) = imports_of ds.
+Proof.
+  induction ds as [|d t IH]; intros c; [reflexivity|].
+  destruct d as [nm path | x e | ty | f0 ps0 res0 body | ty r0 m0 ps0 res0 body]; simpl.
+  - specialize (IH (Fctx (imps c ++ [(nm, path)]) (scopes c))). destruct (pass1 _ t) as [[t' c2] u]. simpl in *. rewrite IH. reflexivity.
+  - destruct (tr_expr c e) as [e' u1]. specialize (IH (insert x c)). destruct (pass1 _ t) as [[t' c2] u]. simpl in *. exact IH.
+  - specialize (IH c). destruct (pass1 c t) as [[t' c2] u]. simpl in *. exact IH.
+  - specialize (IH c). destruct (pass1 c t) as [[t' c2] u]. simpl in *. exact IH.
+  - specialize (IH c). destruct (pass1 c t) as [[t' c2] u]. simpl in *. exact IH.
+Qed.
+
+Lemma funcs_of_pass2 c : forall ds, funcs_of (fst (pass2 c ds)) = map (tfunS (push c)) (funcs_of ds).
+Proof.
+  induction ds as [|d t IH]; [reflexivity|]. simpl. destruct (pass2 c t) as [t' u2]. simpl in IH.
+  destruct d as [nm path | x e | ty | f0 ps0 res0 body | ty r0 m0 ps0 res0 body]; simpl; try exact IH.
+  rewrite tr_block_stmts. destruct (tr_stmts (push c) body) as [b' u]. simpl. rewrite IH. reflexivity.
+  destruct (tr_block c body) as [b' u]. simpl. exact IH.
+Qed.
+
+Lemma methods_of_pass2 c : forall ds, methods_of (fst (pass2 c ds)) = map (tmethS (push c)) (methods_of ds).
+Proof.
+  induction ds as [|d t IH]; [reflexivity|]. simpl. destruct (pass2 c t) as [t' u2]. simpl in IH.
+  destruct d as [nm path | x e | ty | f0 ps0 res0 body | ty r0 m0 ps0 res0 body]; simpl; try exact IH.
+  destruct (tr_block c body) as [b' u]. simpl. exact IH.
+  rewrite tr_block_stmts. destruct (tr_stmts (push c) body) as [b' u]. simpl. rewrite IH. reflexivity.
+Qed.
+
+Lemma imports_of_pass2 c : forall ds, imports_of (fst (pass2 c ds)) = imports_of ds.
+Proof.
+  induction ds as [|d t IH]; [reflexivity|]. simpl. destruct (pass2 c t) as [t' u2]. simpl in IH.
+  destruct d as [nm path | x e | ty | f0 ps0 res0 body | ty r0 m0 ps0 res0 body]; simpl; rewrite ?IH; try reflexivity.
+  destruct (tr_block c body); simpl; exact IH.
+  destruct (tr_block c body); simpl; exact IH.
+Qed.
+
+Lemma pass2_used_func c f ps res b : forall ds, In (DFunc f ps res b) ds -> incl (snd (tr_stmts (push c) b)) (snd (pass2 c ds)).
+Proof.
+  induction ds as [|d t IH]; intros Hin; [destruct Hin|].
+  simpl. destruct (pass2 c t) as [t' u2] eqn:E. destruct Hin as [-> | Hin].
+  - rewrite tr_block_stmts. destruct (tr_stmts (push c) b) as [b' u]. simpl. apply incl_appl, incl_refl.
+  - specialize (IH Hin). simpl in IH.
+    destruct d as [nm path | x e | ty | f0 ps0 res0 body | ty r0 m0 ps0 res0 body]; simpl; try exact IH; try (apply incl_appr; exact IH).
+    destruct (tr_block c body); simpl; apply incl_appr; exact IH.
+    destruct (tr_block c body); simpl; apply incl_appr; exact IH.
+Qed.
+
+Lemma pass2_used_method c ty1 r m ps res b : forall ds, In (DMethod ty1 r m ps res b) ds -> incl (snd (tr_stmts (push c) b)) (snd (pass2 c ds)).
+Proof.
+  induction ds as [|d t IH]; intros Hin; [destruct Hin|].
+  simpl. destruct (pass2 c t) as [t' u2] eqn:E. destruct Hin as [-> | Hin].
+  - rewrite tr_block_stmts. destruct (tr_stmts (push c) b) as [b' u]. simpl. apply incl_appl, incl_refl.
+  - specialize (IH Hin). simpl in IH.
+    destruct d as [nm path | x e | ty | f0 ps0 res0 body | ty r0 m0 ps0 res0 body]; simpl; try exact IH; try (apply incl_appr; exact IH).
+    destruct (tr_block c body); simpl; apply incl_appr; exact IH.
+    destruct (tr_block c body); simpl; apply incl_appr; exact IH.
+Qed.
+
+Lemma in_pass1_func f ps res b : forall ds c, In (DFunc f ps res b) ds -> In (DFunc f ps res b) (fst (fst (pass1 c ds))).
+Proof.
+  induction ds as [|d t IH]; intros c Hin; [destruct Hin|].
+  destruct d as [nm path | x e | ty | f0 ps0 res0 body | ty r0 m0 ps0 res0 body]; simpl.
+  - specialize (IH (Fctx (imps c ++ [(nm, path)]) (scopes c))). destruct (pass1 _ t) as [[t' c2] u]. simpl in *.
+    destruct Hin as [H | H]; [discriminate | auto].
+  - destruct (tr_expr c e) as [e' u1]. specialize (IH (insert x c)). destruct (pass1 _ t) as [[t' c2] u]. simpl in *.
+    destruct Hin as [H | H]; [discriminate | auto].
+  - specialize (IH c). destruct (pass1 c t) as [[t' c2] u]. simpl in *. destruct Hin as [H | H]; [discriminate | auto].
+  - specialize (IH c). destruct (pass1 c t) as [[t' c2] u]. simpl in *. destruct Hin as [H | H]; [left; exact H | auto].
+  - specialize (IH c). destruct (pass1 c t) as [[t' c2] u]. simpl in *. destruct Hin as [H | H]; [discriminate | auto].
+Qed.
+
+Lemma in_pass1_method ty1 r m ps res b : forall ds c, In (DMethod ty1 r m ps res b) ds -> In (DMethod ty1 r m ps res b) (fst (fst (pass1 c ds))).
+Proof.
+  induction ds as [|d t IH]; intros c Hin; [destruct Hin|].
+  destruct d as [nm path | x e | ty | f0 ps0 res0 body | ty r0 m0 ps0 res0 body]; simpl.
+  - specialize (IH (Fctx (imps c ++ [(nm, path)]) (scopes c))). destruct (pass1 _ t) as [[t' c2] u]. simpl in *.
+    destruct Hin as [H | H]; [discriminate | auto].
+  - destruct (tr_expr c e) as [e' u1]. specialize (IH (insert x c)). destruct (pass1 _ t) as [[t' c2] u]. simpl in *.
+    destruct Hin as [H | H]; [discriminate | auto].
+  - specialize (IH c). destruct (pass1 c t) as [[t' c2] u]. simpl in *. destruct Hin as [H | H]; [discriminate | auto].
+  - specialize (IH c). destruct (pass1 c t) as [[t' c2] u]. simpl in *. destruct Hin as [H | H]; [discriminate | auto].
+  - specialize (IH c). destruct (pass1 c t) as [[t' c2] u]. simpl in *. destruct Hin as [H | H]; [left; exact H | auto].
+Qed.
+
+Lemma init_vars_pass2 n md c : forall l W g tr, init_vars n md W (fst (pass2 c l)) g tr = init_vars n md W l g tr.
+Proof.
+  induction l as [|d t IH]; intros W g tr; [reflexivity|].
+  simpl. destruct (pass2 c t) as [t' u2] eqn:E. simpl in IH.
+  destruct d as [nm path | x e | ty | f0 ps0 res0 body | ty r0 m0 ps0 res0 body]; simpl; try apply IH.
+  - destruct (eval_e n md _ g e) as [[v t1]| |]; try reflexivity. apply IH.
+  - destruct (tr_block c body); simpl; apply IH.
+  - destruct (tr_block c body); simpl; apply IH.
+Qed.
+
+Lemma imports_first_rest d t : imports_first (d :: t) = true -> is_import d = false -> imports_first t = true.
+Proof.
+  intros Hi Hd. pose proof (imports_first_tail d t Hi Hd) as Hn. simpl in Hn. rewrite Hd in Hn. simpl in Hn.
+  destruct t as [|d0 t0]; [reflexivity|].
+  simpl in Hn. apply andb_prop in Hn. destruct Hn as [H0 Hn].
+  destruct d0; simpl in *; try discriminate;
+    (rewrite (forallb_eq _ (fun d => negb (is_import d))); [rewrite Hn; reflexivity | intros z; destruct z; reflexivity]).
+Qed.
+
+(* the final context of pass1: all imports, and only package variables (no import name) in scope *)
+Lemma pass1_ctx im okv' okf : forall ds c, imports_first ds = true -> imps c ++ imports_of ds = im ->
+  (forall x, ni im x = false -> in_scope x c = false) ->
+  forallb (goodv_decl (okp im) okv' okf) ds = true ->
+  imps (snd (fst (pass1 c ds))) = im /\ (forall x, ni im x = false -> in_scope x (snd (fst (pass1 c ds))) = false).
+Proof.
+  induction ds as [|d t IH]; intros c Hi Him Hs Hg.
+  - simpl in *. rewrite app_nil_r in Him. auto.
+  - simpl in Hg. apply andb_prop in Hg. destruct Hg as [Hgd Hg].
+    destruct d as [nm path | x e | ty | f0 ps0 res0 body | ty r0 m0 ps0 res0 body]; simpl.
+    + simpl in Hi, Him.
+      set (c1 := Fctx (imps c ++ [(nm, path)]) (scopes c)).
+      assert (Him1 : imps c1 ++ imports_of t = im) by (unfold c1; simpl; rewrite <- app_assoc; exact Him).
+      destruct (IH c1 Hi Him1 Hs Hg) as [H1 H2]. destruct (pass1 c1 t) as [[t' c2] u]. simpl in *. auto.
+    + assert (Hi' : imports_first t = true).
+      { apply (imports_first_rest _ _ Hi). reflexivity. }
+      simpl in Hgd. apply andb_prop in Hgd. destruct Hgd as [Hx _].
+      destruct (tr_expr c e) as [e' u1].
+      assert (Hs' : forall y, ni im y = false -> in_scope y (insert x c) = false).
+      { intros y Hy. rewrite in_scope_insert, (Hs y Hy), orb_false_r.
+        destruct (str_eqb y x) eqn:E; [|reflexivity]. apply str_eqb_eq in E. subst.
+        apply okp_ni in Hx. congruence. }
+      assert (Him' : imps (insert x c) ++ imports_of t = im) by (rewrite imps_insert; exact Him).
+      destruct (IH (insert x c) Hi' Him' Hs' Hg) as [H1 H2]. destruct (pass1 (insert x c) t) as [[t' c2] u]. simpl in *. auto.
+    + assert (Hi' : imports_first t = true).
+      { apply (imports_first_rest _ _ Hi). reflexivity. }
+      destruct (IH c Hi' Him Hs Hg) as [H1 H2]. destruct (pass1 c t) as [[t' c2] u]. simpl in *. auto.
+    + assert (Hi' : imports_first t = true).
+      { apply (imports_first_rest _ _ Hi). reflexivity. }
+      destruct (IH c Hi' Him Hs Hg) as [H1 H2]. destruct (pass1 c t) as [[t' c2] u]. simpl in *. auto.
+    + assert (Hi' : imports_first t = true).
+      { apply (imports_first_rest _ _ Hi). reflexivity. }
+      destruct (IH c Hi' Him Hs Hg) as [H1 H2]. destruct (pass1 c t) as [[t' c2] u]. simpl in *. auto.
+Qed.
+
+(* ================================================================ the program level *)
+
+Definition gni (im : list (name * str)) (g : env) : Prop := forall x, ni im x = false -> bound x g = false.
+
+Lemma scope_safe_in p d : scope_safe p = true -> In d (pdecls p) ->
+  goodv_decl (okp (imports_of (pdecls p))) okv (fun f => negb (is_subst f)) d = true.
+Proof. unfold scope_safe. intros H Hin. rewrite forallb_forall in H. exact (H d Hin). Qed.
+
+Lemma wrel_prog p U cF g g' :
+  scope_safe p = true -> no_case_twin p = true ->
+  imps cF = imports_of (pdecls p) -> (forall x, ni (imports_of (pdecls p)) x = false -> in_scope x cF = false) ->
+  (forall f ps res b, In (DFunc f ps res b) (pdecls p) -> incl (snd (tr_stmts (push cF) b)) U) ->
+  (forall ty r m ps res b, In (DMethod ty r m ps res b) (pdecls p) -> incl (snd (tr_stmts (push cF) b)) U) ->
+  Renv (imports_of (pdecls p)) U g g' -> gni (imports_of (pdecls p)) g ->
+  wrel (imports_of (pdecls p)) U (push cF)
+       (World (imports_of (pdecls p)) (funcs_of (pdecls p)) (methods_of (pdecls p)) g)
+       (World (filter (keepf U) (imports_of (pdecls p))) (map (tfunS (push cF)) (funcs_of (pdecls p)))
+              (map (tmethS (push cF)) (methods_of (pdecls p))) g').
+Proof.
+  intros Hs Ht Hc1 Hc2 HuF HuM Hg Hgn.
+  constructor; simpl; try reflexivity; try assumption.
+  - split; [exact Hc1 | exact Hc2].
+  - intros f ps b Hf. apply sassoc_in in Hf. apply funcs_of_in in Hf. destruct Hf as [res Hin].
+    pose proof (scope_safe_in _ _ Hs Hin) as Hd. simpl in Hd.
+    apply andb_prop in Hd. destruct Hd as [Hd Hb]. apply andb_prop in Hd. destruct Hd as [_ Hp].
+    split; [exact Hp|]. split; [exact Hb | eapply HuF; eauto].
+  - intros f Hsub. destruct (sassoc f (funcs_of (pdecls p))) as [[ps b]|] eqn:Ef; [|reflexivity].
+    apply sassoc_in in Ef. apply funcs_of_in in Ef. destruct Ef as [res Hin].
+    pose proof (scope_safe_in _ _ Hs Hin) as Hd. simpl in Hd.
+    apply andb_prop in Hd. destruct Hd as [Hd _]. apply andb_prop in Hd. destruct Hd as [Hf _].
+    rewrite Hsub in Hf. discriminate.
+  - intros t m r ps b Hf. apply find_method_in in Hf. apply methods_of_in in Hf. destruct Hf as [res Hin].
+    pose proof (scope_safe_in _ _ Hs Hin) as Hd. simpl in Hd.
+    apply andb_prop in Hd. destruct Hd as [Hd Hb]. apply andb_prop in Hd. destruct Hd as [Hr Hp].
+    split; [exact Hr|]. split; [exact Hp|]. split; [exact Hb | eapply HuM; eauto].
+  - intros t m [r [ps b]] Hf Hex. unfold no_case_twin in Ht. rewrite forallb_forall in Ht.
+    apply find_method_in in Hf. specialize (Ht _ Hf). simpl in Ht. rewrite Hex in Ht. simpl in Ht.
+    destruct (find_method t (lower_first m) (methods_of (pdecls p))); [discriminate | reflexivity].
+Qed.
+
+Lemma gni_cons im g x v : gni im g -> ni im x = true -> gni im ((x, v) :: g).
+Proof.
+  intros Hg Hx y Hy. rewrite bound_cons, (Hg y Hy), orb_false_r.
+  destruct (str_eqb y x) eqn:E; [|reflexivity]. apply str_eqb_eq in E. subst. congruence.
+Qed.
+
+Lemma init_sim n p U cF :
+  scope_safe p = true -> no_case_twin p = true ->
+  imps cF = imports_of (pdecls p) -> (forall x, ni (imports_of (pdecls p)) x = false -> in_scope x cF = false) ->
+  (forall f ps res b, In (DFunc f ps res b) (pdecls p) -> incl (snd (tr_stmts (push cF) b)) U) ->
+  (forall ty r m ps res b, In (DMethod ty r m ps res b) (pdecls p) -> incl (snd (tr_stmts (push cF) b)) U) ->
+  forall l c, imports_first l = true -> imps c ++ imports_of l = imports_of (pdecls p) ->
+  (forall x, ni (imports_of (pdecls p)) x = false -> in_scope x c = false) ->
+  (forall d, In d l -> In d (pdecls p)) -> incl (snd (pass1 c l)) U ->
+  forall g g' tr0 g1 t1, Renv (imports_of (pdecls p)) U g g' -> gni (imports_of (pdecls p)) g ->
+  init_vars n Go (World (imports_of (pdecls p)) (funcs_of (pdecls p)) (methods_of (pdecls p)) []) l g tr0 = Ok (g1, t1) ->
+  exists g1', init_vars n XGo
+      (World (filter (keepf U) (imports_of (pdecls p))) (map (tfunS (push cF)) (funcs_of (pdecls p)))
+             (map (tmethS (push cF)) (methods_of (pdecls p))) [])
+      (fst (fst (pass1 c l))) g' tr0 = Ok (g1', t1) /\ Renv (imports_of (pdecls p)) U g1 g1' /\ gni (imports_of (pdecls p)) g1.
+Proof.
+  intros Hs Ht Hc1 Hc2 HuF HuM.
+  induction l as [|d l IH]; intros c Hi Him Hsc Hl Hu g g' tr0 g1 t1 Hg Hgn Hev.
+  - simpl in *. inversion Hev; subst. eauto.
+  - assert (Hl' : forall d0, In d0 l -> In d0 (pdecls p)) by (intros; apply Hl; simpl; auto).
+    destruct d as [nm path | x e | ty | f ps res body | ty r m ps res body].
+    + simpl in Hi, Him, Hev, Hu |- *.
+      set (c1 := Fctx (imps c ++ [(nm, path)]) (scopes c)) in *.
+      assert (Him1 : imps c1 ++ imports_of l = imports_of (pdecls p)) by (unfold c1; simpl; rewrite <- app_assoc; exact Him).
+      assert (Hu1 : incl (snd (pass1 c1 l)) U) by (destruct (pass1 c1 l) as [[t' c2] u]; exact Hu).
+      destruct (IH c1 Hi Him1 Hsc Hl' Hu1 g g' tr0 g1 t1 Hg Hgn Hev) as [g1' H].
+      destruct (pass1 c1 l) as [[t' c2] u]. simpl in *. eauto.
+    + pose proof (imports_first_tail _ _ Hi eq_refl) as Hn.
+      pose proof (imports_first_rest _ _ Hi eq_refl) as Hi'.
+      rewrite (imports_of_none _ Hn), app_nil_r in Him.
+      assert (Hgd : In (DVar x e) (pdecls p)) by (apply Hl; simpl; auto).
+      pose proof (scope_safe_in _ _ Hs Hgd) as Hd. simpl in Hd. apply andb_prop in Hd. destruct Hd as [Hx Hge].
+      simpl in Hev, Hu |- *.
+      destruct (tr_expr c e) as [e' u1] eqn:Te.
+      assert (Hsc' : forall y, ni (imports_of (pdecls p)) y = false -> in_scope y (insert x c) = false).
+      { intros y Hy. rewrite in_scope_insert, (Hsc y Hy), orb_false_r.
+        destruct (str_eqb y x) eqn:E; [|reflexivity]. apply str_eqb_eq in E. subst.
+        apply okp_ni in Hx. congruence. }
+      assert (Him' : imps (insert x c) ++ imports_of l = imports_of (pdecls p)).
+      { rewrite imps_insert. simpl in Hn. rewrite (imports_of_none l), app_nil_r; [exact Him|].
+        simpl in Hn. exact Hn. }
+      assert (Hu12 : incl u1 U /\ incl (snd (pass1 (insert x c) l)) U).
+      { destruct (pass1 (insert x c) l) as [[t' c2] u2]. simpl in Hu |- *. split; [eapply incl_app_l | eapply incl_app_r]; eauto. }
+      destruct Hu12 as [Hu1 Hu2].
+      destruct (eval_e n Go _ g e) as [[v ta]| |] eqn:Ea; try discriminate.
+      pose proof (wrel_prog p U cF g g' Hs Ht Hc1 Hc2 HuF HuM Hg Hgn) as HW.
+      destruct (sim_all _ _ _ n _ _ HW) as [He _].
+      assert (Hinv : inv (imports_of (pdecls p)) c g).
+      { split; [exact Him|]. intros y Hy. rewrite (Hsc y Hy), (Hgn y Hy). reflexivity. }
+      destruct (He _ _ _ _ _ _ _ _ Te Hu1 Hinv Hg Hge Ea) as [v' [Ha Rv]].
+      assert (Hg1 : Renv (imports_of (pdecls p)) U ((x, v) :: g) ((x, v') :: g'))
+        by (constructor; [apply okp_okv with (im := imports_of (pdecls p)); assumption | assumption | assumption]).
+      assert (Hgn1 : gni (imports_of (pdecls p)) ((x, v) :: g)) by (apply gni_cons; [assumption | eapply okp_ni; eauto]).
+      destruct (IH (insert x c) Hi' Him' Hsc' Hl' Hu2 _ _ _ g1 t1 Hg1 Hgn1 Hev) as [g1' H].
+      destruct (pass1 (insert x c) l) as [[t' c2] u2]. simpl in *. rewrite Ha. eauto.
+    + pose proof (imports_first_rest _ _ Hi eq_refl) as Hi'. simpl in Him, Hev, Hu |- *.
+      assert (Hu1 : incl (snd (pass1 c l)) U) by (destruct (pass1 c l) as [[t' c2] u]; exact Hu).
+      destruct (IH c Hi' Him Hsc Hl' Hu1 g g' tr0 g1 t1 Hg Hgn Hev) as [g1' H].
+      destruct (pass1 c l) as [[t' c2] u]. simpl in *. eauto.
+    + pose proof (imports_first_rest _ _ Hi eq_refl) as Hi'. simpl in Him, Hev, Hu |- *.
+      assert (Hu1 : incl (snd (pass1 c l)) U) by (destruct (pass1 c l) as [[t' c2] u]; exact Hu).
+      destruct (IH c Hi' Him Hsc Hl' Hu1 g g' tr0 g1 t1 Hg Hgn Hev) as [g1' H].
+      destruct (pass1 c l) as [[t' c2] u]. simpl in *. eauto.
+    + pose proof (imports_first_rest _ _ Hi eq_refl) as Hi'. simpl in Him, Hev, Hu |- *.
+      assert (Hu1 : incl (snd (pass1 c l)) U) by (destruct (pass1 c l) as [[t' c2] u]; exact Hu).
+      destruct (IH c Hi' Him Hsc Hl' Hu1 g g' tr0 g1 t1 Hg Hgn Hev) as [g1' H].
+      destruct (pass1 c l) as [[t' c2] u]. simpl in *. eauto.
+Qed.
+
+(* C25: preservation, with `var` statements allowed to shadow imports *)
+Theorem gopstyle_preserves_tracked p n tr :
+  imports_first (pdecls p) = true -> scope_safe p = true -> no_case_twin p = true ->
+  run n Go p = Ok tr -> run n XGo (gopstyle p) = Ok tr.
+Proof.
+  intros Hi Hs Ht Hrun.
+  unfold run in *. unfold gopstyle, gopstyle_decls.
+  set (ds := pdecls p) in *. set (im := imports_of ds) in *.
+  assert (Hg0 : forallb (goodv_decl (okp (nil ++ im)) okv (fun f => negb (is_subst f))) ds = true) by exact Hs.
+  destruct (pass1_ctx im okv (fun f => negb (is_subst f)) ds (Fctx [] [[]]) Hi eq_refl (fun x _ => eq_refl) Hs) as [Hc1 Hc2].
+  pose proof (funcs_of_pass1 ds (Fctx [] [[]])) as HF1. pose proof (methods_of_pass1 ds (Fctx [] [[]])) as HM1.
+  pose proof (imports_of_pass1 ds (Fctx [] [[]])) as HI1.
+  pose proof (fun f ps res b => in_pass1_func f ps res b ds (Fctx [] [[]])) as HinF.
+  pose proof (fun ty r m ps res b => in_pass1_method ty r m ps res b ds (Fctx [] [[]])) as HinM.
+  pose proof (init_sim n p) as Hinit.
+  destruct (pass1 (Fctx [] [[]]) ds) as [[ds1 cF] u1] eqn:E1. simpl in Hc1, Hc2, HF1, HM1, HI1, HinF, HinM.
+  pose proof (funcs_of_pass2 cF ds1) as HF2. pose proof (methods_of_pass2 cF ds1) as HM2.
+  pose proof (imports_of_pass2 cF ds1) as HI2.
+  pose proof (fun f ps res b => pass2_used_func cF f ps res b ds1) as HuF.
+  pose proof (fun ty r m ps res b => pass2_used_method cF ty r m ps res b ds1) as HuM.
+  pose proof (fun W g t => init_vars_pass2 n XGo cF ds1 W g t) as HIV.
+  destruct (pass2 cF ds1) as [ds2 u2] eqn:E2. simpl in HF2, HM2, HI2, HuF, HuM, HIV.
+  cbn [pdecls].
+  set (U := u1 ++ u2).
+  rewrite imports_of_filter, funcs_of_filter, methods_of_filter, init_vars_filter.
+  rewrite HI2, HI1, HF2, HF1, HM2, HM1. fold im.
+  assert (HuF' : forall f ps res b, In (DFunc f ps res b) ds -> incl (snd (tr_stmts (push cF) b)) U).
+  { intros f ps res b Hin. unfold U. apply incl_appr. apply (HuF f ps res b). apply HinF. exact Hin. }
+  assert (HuM' : forall ty r m ps res b, In (DMethod ty r m ps res b) ds -> incl (snd (tr_stmts (push cF) b)) U).
+  { intros ty r m ps res b Hin. unfold U. apply incl_appr. apply (HuM ty r m ps res b). apply HinM. exact Hin. }
+  destruct (init_vars n Go (World im (funcs_of ds) (methods_of ds) []) ds [] []) as [[g t0]| |] eqn:Ei; try discriminate.
+  assert (Hu1 : incl (snd (pass1 (Fctx [] [[]]) ds)) U) by (rewrite E1; simpl; unfold U; apply incl_appl, incl_refl).
+  destruct (Hinit U cF Hs Ht Hc1 Hc2 HuF' HuM' ds (Fctx [] [[]]) Hi eq_refl (fun x _ => eq_refl) (fun d H => H) Hu1
+              [] [] [] g t0 (Renv_nil im U) (fun x _ => eq_refl) Ei) as [g' [Hi' [Rg Hgn]]].
+  rewrite E1 in Hi'. simpl in Hi'. rewrite HIV. fold ds im in Hi'. rewrite Hi'.
+  rewrite sassoc_tfunS.
+  destruct (sassoc main_name (funcs_of ds)) as [[ps b]|] eqn:Em; [|discriminate].
+  destruct (eval_ss n Go (World im (funcs_of ds) (methods_of ds) g) g b) as [[[r e2] t1]| |] eqn:Es; try discriminate.
+  inversion Hrun; subst tr.
+  pose proof (wrel_prog p U cF g g' Hs Ht Hc1 Hc2 HuF' HuM' Rg Hgn) as HW. fold ds im in HW.
+  destruct (sim_all _ _ _ n _ _ HW) as [_ [_ [_ Hss]]].
+  destruct (wr_fgood _ _ _ _ _ HW _ _ _ Em) as [_ [Hgb Hub]].
+  destruct (tr_stmts (push cF) b) as [b1 ub] eqn:Tb. simpl in *.
+  destruct (Hss _ _ _ _ _ _ _ _ _ Tb Hub (inv_cfn_genv _ _ _ _ _ HW) Rg Hgb Es) as [r' [e2' [Hs' _]]].
+  rewrite Hs'. reflexivity.
+Qed.
